@@ -1,2 +1,724 @@
-(* C01 — Proofs (filled in as the theorems close) *)
+(* C01 — proofs about the shared trigger model: what each scan returns (used by C01 and C02), the stream
+   invariant across append / trigger / trim, and the generic induction over histories. *)
 From Dastard Require Import Common.ZX Pipeline.Stream C01.Model C01.Spec.
+From Coq Require Import ZifyBool ZifyNat.
+
+(* ---------- small facts ---------- *)
+
+Lemma s32_small x : -2147483648 <= x < 2147483648 -> s32 x = x.
+Proof. intros H. unfold s32. rewrite Z.mod_small by lia. lia. Qed.
+
+Lemma lengths_ok_iff npre nsamp : lengths_ok npre nsamp = true <-> 3 <= npre /\ npre + 1 <= nsamp.
+Proof. unfold lengths_ok. lia. Qed.
+
+(* increasing lists: every element at least [lo], consecutive elements at least [d] apart *)
+Fixpoint spaced (d lo : Z) (l : list Z) : Prop :=
+  match l with [] => True | x :: l' => lo <= x /\ spaced d (x + d) l' end.
+
+Lemma spaced_weaken d lo lo' l : lo' <= lo -> spaced d lo l -> spaced d lo' l.
+Proof. destruct l; cbn [spaced]; [trivial|]. intros H [H1 H2]. split; [lia|assumption]. Qed.
+
+Lemma spaced_weaken_d d d' lo l : d' <= d -> spaced d lo l -> spaced d' lo l.
+Proof.
+  intros Hd. revert lo. induction l as [|x l IH]; intros lo; cbn [spaced]; [trivial|].
+  intros [H1 H2]. split; [assumption|]. apply IH. eapply spaced_weaken; [|exact H2]. lia.
+Qed.
+
+Lemma spaced_ge d lo l : 0 <= d -> spaced d lo l -> forall x, In x l -> lo <= x.
+Proof.
+  intros Hd. revert lo. induction l as [|y l IH]; intros lo H x Hx; [destruct Hx|].
+  cbn [spaced] in H. destruct H as [H1 H2]. destruct Hx as [->|Hx]; [assumption|].
+  specialize (IH _ H2 _ Hx). lia.
+Qed.
+
+(* ---------- sort ---------- *)
+
+Lemma insert_in x l y : In y (insert x l) <-> y = x \/ In y l.
+Proof.
+  induction l as [|z l IH]; cbn [insert]; [cbn; intuition|].
+  destruct (x <=? z); cbn [In]; [intuition|]. rewrite IH. intuition.
+Qed.
+
+Lemma sort_in l y : In y (sort l) <-> In y l.
+Proof.
+  induction l as [|x l IH]; cbn [sort]; [reflexivity|].
+  rewrite insert_in, IH. cbn [In]. intuition.
+Qed.
+
+Lemma insert_spaced x lo l : lo <= x -> spaced 0 lo l -> spaced 0 lo (insert x l).
+Proof.
+  revert lo. induction l as [|z l IH]; intros lo Hx H; cbn [insert spaced] in *.
+  - split; [assumption|trivial].
+  - destruct H as [H1 H2]. destruct (x <=? z) eqn:E; cbn [spaced].
+    + split; [assumption|]. split; [lia|]. assumption.
+    + split; [assumption|]. apply IH; [lia|assumption].
+Qed.
+
+Lemma sort_spaced l lo : (forall x, In x l -> lo <= x) -> spaced 0 lo (sort l).
+Proof.
+  induction l as [|x l IH]; intros H; cbn [sort]; [exact I|].
+  apply insert_spaced; [apply H; now left|]. apply IH. intros y Hy. apply H. now right.
+Qed.
+
+Lemma sort_length l : length (sort l) = length l.
+Proof.
+  induction l as [|x l IH]; [reflexivity|]. cbn [sort length]. rewrite <- IH. clear IH.
+  generalize (sort l). intros s. induction s as [|z s IH]; [reflexivity|].
+  cbn [insert]. destruct (x <=? z); cbn [length]; [reflexivity|]. now rewrite IH.
+Qed.
+
+Lemma last_opt_spaced lo l m : spaced 0 lo l -> last_opt l = Some m -> In m l /\ forall x, In x l -> x <= m.
+Proof.
+  revert lo. induction l as [|x l IH]; intros lo H Hm; [discriminate|].
+  destruct l as [|y l].
+  - inversion Hm; subst. split; [now left|]. intros z [->|[]]. lia.
+  - cbn [spaced] in H. destruct H as [H1 H2].
+    change (last_opt (y :: l) = Some m) in Hm.
+    destruct (IH _ H2 Hm) as [Hin Hmax]. split; [now right|].
+    intros z [<-|Hz]; [|now apply Hmax].
+    assert (x + 0 <= y) by (cbn [spaced] in H2; tauto).
+    specialize (Hmax y ltac:(now left)). lia.
+Qed.
+
+Lemma last_opt_none l : last_opt l = None -> l = [].
+Proof.
+  induction l as [|x l IH]; [reflexivity|]. destruct l as [|y l]; [discriminate|].
+  intros H. change (last_opt (y :: l) = None) in H. specialize (IH H). discriminate.
+Qed.
+
+(* ---------- the edge scan ---------- *)
+
+Definition edge_at (ts : tstate) (sg : bool) (raw : list Z) (i : Z) : bool :=
+  edge_test ts (shift sg (znth 0 raw i)) (shift sg (znth 0 raw (i - 1)))
+               (shift sg (znth 0 raw (i - 2))) (shift sg (znth 0 raw (i - 3))).
+
+Record edge_list_ok (ts : tstate) (sg : bool) (raw : list Z) (nsamp i e : Z) (l : list Z) : Prop := {
+  el_range : forall t, In t l -> i <= t < e /\ edge_at ts sg raw t = true;
+  el_spaced : spaced (nsamp + 1) i l;
+  el_complete : forall k, i <= k < e -> edge_at ts sg raw k = true ->
+                In k l \/ exists t, In t l /\ t < k <= t + nsamp
+}.
+
+Lemma edge_loop_spec ts sg raw nsamp e :
+  0 <= nsamp -> e <= zlen raw ->
+  forall fuel i, 3 <= i -> Z.max 0 (e - i) < Z.of_nat fuel ->
+  exists l, edge_loop fuel ts sg raw nsamp i e = Ok l /\ edge_list_ok ts sg raw nsamp i e l.
+Proof.
+  intros Hn He. induction fuel as [|f IH]; intros i Hi Hf; [lia|].
+  cbn [edge_loop]. destruct (i <? e) eqn:Elt.
+  2:{ exists []. split; [reflexivity|]. split; cbn [In spaced]; try tauto. intros; lia. }
+  destruct ((i - 3 <? 0) || (i >=? zlen raw)) eqn:Er; [lia|].
+  fold (edge_at ts sg raw i).
+  destruct (edge_at ts sg raw i) eqn:Ec.
+  - destruct (IH (i + nsamp + 1) ltac:(lia) ltac:(lia)) as [l [Hl [R S C]]].
+    rewrite Hl. exists (i :: l). split; [reflexivity|]. split.
+    + intros t [<-|Ht]; [split; [lia|assumption]|]. destruct (R t Ht). split; [lia|assumption].
+    + cbn [spaced]. split; [lia|]. replace (i + (nsamp + 1)) with (i + nsamp + 1) by lia. assumption.
+    + intros k Hk Hck. destruct (Z.eq_dec k i) as [->|Hne]; [left; now left|].
+      destruct (Z.le_gt_cases k (i + nsamp)) as [Hle|Hgt].
+      * right. exists i. split; [now left|lia].
+      * destruct (C k ltac:(lia) Hck) as [Hin|[t [Ht Hr]]]; [left; now right|].
+        right. exists t. split; [now right|assumption].
+  - destruct (IH (i + 1) ltac:(lia) ltac:(lia)) as [l [Hl [R S C]]].
+    rewrite Hl. exists l. split; [reflexivity|]. split.
+    + intros t Ht. destruct (R t Ht). split; [lia|assumption].
+    + eapply spaced_weaken; [|exact S]. lia.
+    + intros k Hk Hck. destruct (Z.eq_dec k i) as [->|Hne]; [congruence|].
+      apply C; [lia|assumption].
+Qed.
+
+(* ---------- the level scan ---------- *)
+
+Definition level_at (ts : tstate) (sg : bool) (raw : list Z) (thr i : Z) : bool :=
+  level_test ts thr (shift sg (znth 0 raw i)) (shift sg (znth 0 raw (i - 1))).
+
+Record level_list_ok (ts : tstate) (sg : bool) (raw : list Z) (nsamp thr i e : Z) (found l : list Z) : Prop := {
+  ll_range : forall t, In t l -> i <= t < e /\ level_at ts sg raw thr t = true;
+  ll_complete : forall k, i <= k < e -> level_at ts sg raw thr k = true ->
+                In k l \/ exists f, In f found /\ Z.abs (k - f) < nsamp
+}.
+
+Lemma level_loop_spec ts sg raw nsamp thr e :
+  1 <= nsamp -> e <= zlen raw ->
+  forall fuel i found, 1 <= i -> spaced (nsamp + 1) i found ->
+    Z.max 0 (e - i) + zlen found < Z.of_nat fuel ->
+  exists l, level_loop fuel ts sg raw nsamp thr i e found = Ok l /\
+            level_list_ok ts sg raw nsamp thr i e found l.
+Proof.
+  intros Hn He. induction fuel as [|f IH]; intros i found Hi Hsp Hf; [pose proof (zlen_nonneg found); lia|].
+  cbn [level_loop]. destruct (i <? e) eqn:Elt.
+  2:{ exists []. split; [reflexivity|]. split; cbn [In]; try tauto. intros; lia. }
+  (* the ordinary step, shared by the two places where it occurs *)
+  assert (Hcheck : forall found', spaced (nsamp + 1) (i + 1) found' -> zlen found' <= zlen found ->
+            (forall k, i < k -> forall f, In f found' -> Z.abs (k - f) < nsamp -> exists f0, In f0 found /\ Z.abs (k - f0) < nsamp) ->
+            exists l,
+              (if (i - 1 <? 0) || (i >=? zlen raw) then Panic
+               else if level_test ts thr (shift sg (znth 0 raw i)) (shift sg (znth 0 raw (i - 1)))
+                    then match level_loop f ts sg raw nsamp thr (i + 1) e found' with
+                         | Ok l => Ok (i :: l) | Panic => Panic end
+                    else level_loop f ts sg raw nsamp thr (i + 1) e found') = Ok l /\
+              level_list_ok ts sg raw nsamp thr i e found l).
+  { intros found' Hsp' Hlen Hsub.
+    destruct ((i - 1 <? 0) || (i >=? zlen raw)) eqn:Er; [lia|].
+    fold (level_at ts sg raw thr i).
+    destruct (IH (i + 1) found' ltac:(lia) Hsp' ltac:(lia)) as [l [Hl [R C]]].
+    rewrite Hl. destruct (level_at ts sg raw thr i) eqn:Ec.
+    - exists (i :: l). split; [reflexivity|]. split.
+      + intros t [<-|Ht]; [split; [lia|assumption]|]. destruct (R t Ht). split; [lia|assumption].
+      + intros k Hk Hck. destruct (Z.eq_dec k i) as [->|Hne]; [left; now left|].
+        destruct (C k ltac:(lia) Hck) as [Hin|[f0 [Hf0 Hr]]]; [left; now right|].
+        right. apply (Hsub k ltac:(lia) f0 Hf0 Hr).
+    - exists l. split; [reflexivity|]. split.
+      + intros t Ht. destruct (R t Ht). split; [lia|assumption].
+      + intros k Hk Hck. destruct (Z.eq_dec k i) as [->|Hne]; [congruence|].
+        destruct (C k ltac:(lia) Hck) as [Hin|[f0 [Hf0 Hr]]]; [now left|].
+        right. apply (Hsub k ltac:(lia) f0 Hf0 Hr). }
+  destruct found as [|nf rest].
+  - apply Hcheck; [exact I|lia|]. intros k _ f0 [].
+  - cbn [spaced] in Hsp. destruct Hsp as [Hnf Hrest].
+    assert (Hzl : zlen (nf :: rest) = 1 + zlen rest) by (unfold zlen; cbn [length]; lia).
+    destruct (i + nsamp >? nf) eqn:Eskip.
+    + (* skip to nf + nsamp *)
+      destruct (IH (nf + nsamp) rest ltac:(lia)) as [l [Hl [R C]]].
+      { eapply spaced_weaken; [|exact Hrest]. lia. }
+      { pose proof (zlen_nonneg rest). lia. }
+      exists l. split; [exact Hl|]. split.
+      * intros t Ht. destruct (R t Ht). split; [lia|assumption].
+      * intros k Hk Hck. destruct (Z.lt_ge_cases k (nf + nsamp)) as [Hlt|Hge].
+        -- right. exists nf. split; [now left|lia].
+        -- destruct (C k ltac:(lia) Hck) as [Hin|[f0 [Hf0 Hr]]]; [now left|].
+           right. exists f0. split; [now right|assumption].
+    + apply Hcheck.
+      * cbn [spaced]. split; [lia|assumption].
+      * lia.
+      * intros k _ f0 Hf0 Hr. exists f0. split; assumption.
+Qed.
+
+(* ---------- the auto scan ---------- *)
+
+Lemma vetoed_ok raw veto begin nsamp :
+  0 <= begin -> 0 <= nsamp -> begin + nsamp < zlen raw -> exists v, vetoed raw veto begin nsamp = Ok v.
+Proof.
+  intros Hb Hn Hl. unfold vetoed. destruct (veto >? 0); [|eauto].
+  destruct ((begin <? 0) || (begin >=? zlen raw) || (begin + nsamp >? zlen raw)) eqn:E; [lia|].
+  destruct (fold_left veto_step _ _). eauto.
+Qed.
+
+Lemma vetoed_off raw veto begin nsamp : veto <= 0 -> vetoed raw veto begin nsamp = Ok false.
+Proof. intros H. unfold vetoed. destruct (veto >? 0) eqn:E; [lia|reflexivity]. Qed.
+
+(* what the auto scan guarantees about positions: enough for "never panics" and the excerpt theorem;
+   the gap statements of C02 are proved separately *)
+Lemma auto_loop_range raw veto npre nsamp dly :
+  1 <= nsamp -> nsamp <= dly ->
+  forall fuel c found, npre <= c -> spaced 0 (c - dly) found ->
+    Z.max 0 (zlen raw - (c + nsamp - npre)) + zlen found < Z.of_nat fuel ->
+  exists l, auto_loop fuel raw veto npre nsamp dly c found = Ok l /\
+            forall t, In t l -> c <= t /\ t + nsamp - npre < zlen raw.
+Proof.
+  intros Hn Hd. induction fuel as [|f IH]; intros c found Hc Hsp Hf; [pose proof (zlen_nonneg found); lia|].
+  cbn [auto_loop]. destruct (c + nsamp - npre <? zlen raw) eqn:Elt.
+  2:{ exists []. split; [reflexivity|]. intros t []. }
+  assert (Hemit : spaced 0 (c + dly - dly) found ->
+            exists l,
+              match vetoed raw veto (c - npre) nsamp with
+              | Panic => Panic
+              | Ok v => match auto_loop f raw veto npre nsamp dly (c + dly) found with
+                        | Ok l => Ok (if v then l else c :: l) | Panic => Panic end
+              end = Ok l /\ forall t, In t l -> c <= t /\ t + nsamp - npre < zlen raw).
+  { intros Hsp'.
+    destruct (vetoed_ok raw veto (c - npre) nsamp ltac:(lia) ltac:(lia) ltac:(lia)) as [v ->].
+    destruct (IH (c + dly) found ltac:(lia) Hsp' ltac:(lia)) as [l [-> R]].
+    destruct v; eexists; (split; [reflexivity|]).
+    - intros t Ht. destruct (R t Ht). lia.
+    - intros t [<-|Ht]; [lia|]. destruct (R t Ht). lia. }
+  destruct found as [|nf rest].
+  - apply Hemit. exact I.
+  - cbn [spaced] in Hsp. destruct Hsp as [Hnf Hrest].
+    assert (Hzl : zlen (nf :: rest) = 1 + zlen rest) by (unfold zlen; cbn [length]; lia).
+    destruct (c + nsamp <=? nf) eqn:Eok.
+    + apply Hemit. cbn [spaced]. split; [lia|assumption].
+    + destruct (IH (nf + dly) rest ltac:(lia)) as [l [-> R]].
+      { replace (nf + dly - dly) with (nf + 0) by lia. assumption. }
+      { pose proof (zlen_nonneg rest). lia. }
+      exists l. split; [reflexivity|]. intros t Ht. destruct (R t Ht). lia.
+Qed.
+
+(* ---------- TriggerData: the three scans together ---------- *)
+
+Lemma first_potential_ge d : d_npre d <= first_potential d.
+Proof. unfold first_potential. destruct (_ <? _) eqn:E; lia. Qed.
+
+Lemma first_potential_auto_ge d : d_npre d <= first_potential_auto d.
+Proof. unfold first_potential_auto. destruct (_ <? d_npre d) eqn:E; lia. Qed.
+
+Definition auto_dly_of (d : dsp) : Z :=
+  if ts_autodelay (d_ts d) <? d_nsamp d then d_nsamp d else ts_autodelay (d_ts d).
+
+Lemma first_potential_auto_le d : 0 <= d_nsamp d -> first_potential_auto d - auto_dly_of d <= first_potential d.
+Proof.
+  intros Hn. unfold first_potential_auto, first_potential, auto_dly_of.
+  destruct (ts_autodelay (d_ts d) >? d_nsamp d) eqn:E1; destruct (ts_autodelay (d_ts d) <? d_nsamp d) eqn:E2;
+    repeat match goal with |- context [if ?c then _ else _] => destruct c eqn:? end; lia.
+Qed.
+
+(* the scans of one TriggerData call, with what each guarantees *)
+Record scans (d : dsp) (E L A idx : list Z) : Prop := {
+  sc_edge : if ts_edge (d_ts d)
+            then edge_list_ok (d_ts d) (st_signed (d_stream d)) (st_data (d_stream d)) (d_nsamp d)
+                   (first_potential d) (zlen (st_data (d_stream d)) + d_npre d - d_nsamp d) E
+            else E = [];
+  sc_level : if ts_level (d_ts d)
+             then level_list_ok (d_ts d) (st_signed (d_stream d)) (st_data (d_stream d)) (d_nsamp d)
+                    (if st_signed (d_stream d) then u16 (ts_levellevel (d_ts d) + 32768) else ts_levellevel (d_ts d))
+                    (first_potential d) (zlen (st_data (d_stream d)) + d_npre d - d_nsamp d) E L
+             else L = [];
+  sc_auto : if ts_auto (d_ts d)
+            then exists fuel EL,
+                   auto_loop fuel (st_data (d_stream d)) (ts_autoveto (d_ts d)) (d_npre d) (d_nsamp d)
+                             (auto_dly_of d) (first_potential_auto d) EL = Ok A /\
+                   spaced 0 (first_potential_auto d - auto_dly_of d) EL /\
+                   (forall x, In x EL <-> In x E \/ In x L)
+            else A = [];
+  sc_in : forall x, In x idx <-> In x E \/ In x L \/ In x A;
+  sc_sorted : spaced 0 (d_npre d) idx;
+  sc_range : forall i, In i idx -> d_npre d <= i /\ i + d_nsamp d - d_npre d < zlen (st_data (d_stream d))
+}.
+
+Lemma trigger_positions_scans d :
+  3 <= d_npre d -> d_npre d + 1 <= d_nsamp d ->
+  exists E L A idx, trigger_positions d = Ok idx /\ scans d E L A idx.
+Proof.
+  intros Hp Hs.
+  pose proof (first_potential_ge d) as Hfp. pose proof (first_potential_auto_ge d) as Hfa.
+  pose proof (first_potential_auto_le d ltac:(lia)) as Hfl.
+  pose proof (zlen_nonneg (st_data (d_stream d))) as Hlen.
+  unfold trigger_positions. cbv zeta.
+  set (ts := d_ts d) in *. set (st := d_stream d) in *. set (raw := st_data st) in *.
+  set (sg := st_signed st) in *. set (nsamp := d_nsamp d) in *. set (npre := d_npre d) in *.
+  set (e := zlen raw + npre - nsamp) in *.
+  set (fp := first_potential d) in *. set (fa := first_potential_auto d) in *.
+  set (thr := if sg then u16 (ts_levellevel ts + 32768) else ts_levellevel ts).
+  (* edge *)
+  assert (HE : exists E, (if ts_edge ts then edge_loop (S (Z.to_nat (zlen raw))) ts sg raw nsamp fp e else Ok []) = Ok E /\
+                         (if ts_edge ts then edge_list_ok ts sg raw nsamp fp e E else E = [])).
+  { destruct (ts_edge ts); [|eauto].
+    destruct (edge_loop_spec ts sg raw nsamp e ltac:(lia) ltac:(lia) (S (Z.to_nat (zlen raw))) fp ltac:(lia) ltac:(lia)) as [E [H1 H2]].
+    eauto. }
+  destruct HE as [E [-> HEok]].
+  assert (HEsp : spaced (nsamp + 1) fp E).
+  { destruct (ts_edge ts); [apply HEok|subst E; exact I]. }
+  assert (HEr : forall t, In t E -> fp <= t < e).
+  { destruct (ts_edge ts); [intros t Ht; apply (el_range _ _ _ _ _ _ _ HEok t Ht)|subst E; intros t []]. }
+  (* level *)
+  assert (HL : exists L, (if ts_level ts then level_loop (S (Z.to_nat (zlen raw)) + length E) ts sg raw nsamp thr fp e E else Ok []) = Ok L /\
+                         (if ts_level ts then level_list_ok ts sg raw nsamp thr fp e E L else L = [])).
+  { destruct (ts_level ts); [|eauto].
+    destruct (level_loop_spec ts sg raw nsamp thr e ltac:(lia) ltac:(lia) (S (Z.to_nat (zlen raw)) + length E)%nat fp E
+                ltac:(lia) HEsp ltac:(change (zlen E) with (Z.of_nat (length E)); lia)) as [L [H1 H2]].
+    eauto. }
+  destruct HL as [L [-> HLok]].
+  assert (HLr : forall t, In t L -> fp <= t < e).
+  { destruct (ts_level ts); [intros t Ht; apply (ll_range _ _ _ _ _ _ _ _ _ HLok t Ht)|subst L; intros t []]. }
+  set (EL := if ts_level ts then sort (E ++ L) else E).
+  assert (HELin : forall x, In x EL <-> In x E \/ In x L).
+  { intros x. unfold EL. destruct (ts_level ts).
+    - rewrite sort_in, in_app_iff. reflexivity.
+    - subst L. cbn [In]. tauto. }
+  assert (HELr : forall t, In t EL -> fp <= t < e).
+  { intros t Ht. apply HELin in Ht. destruct Ht; auto. }
+  change (if ts_autodelay ts <? nsamp then nsamp else ts_autodelay ts) with (auto_dly_of d).
+  set (dly := auto_dly_of d) in *.
+  assert (Hdly : nsamp <= dly) by (unfold dly, auto_dly_of; fold nsamp; destruct (_ <? _) eqn:E0; lia).
+  assert (HELsp : forall lo, lo <= fp -> spaced 0 lo EL).
+  { intros lo Hlo. unfold EL. destruct (ts_level ts).
+    - apply sort_spaced. intros x Hx. rewrite in_app_iff in Hx. destruct Hx as [Hx|Hx]; [apply HEr in Hx|apply HLr in Hx]; lia.
+    - eapply spaced_weaken; [exact Hlo|]. eapply spaced_weaken_d; [|exact HEsp]. lia. }
+  (* auto *)
+  assert (HA : exists A, (if ts_auto ts
+                          then auto_loop (S (Z.to_nat (zlen raw)) + length EL) raw (ts_autoveto ts) npre nsamp dly fa EL
+                          else Ok []) = Ok A /\
+                         (if ts_auto ts then (forall t, In t A -> fa <= t /\ t + nsamp - npre < zlen raw) else A = [])).
+  { destruct (ts_auto ts); [|eauto].
+    destruct (auto_loop_range raw (ts_autoveto ts) npre nsamp dly ltac:(lia) Hdly (S (Z.to_nat (zlen raw)) + length EL)%nat fa EL
+                ltac:(lia) (HELsp _ Hfl) ltac:(change (zlen EL) with (Z.of_nat (length EL)); lia)) as [A [H1 H2]].
+    eauto. }
+  destruct HA as [A [HAeq HAr]].
+  rewrite HAeq.
+  exists E, L, A. eexists. split; [reflexivity|].
+  assert (HAr' : forall t, In t A -> npre <= t /\ t + nsamp - npre < zlen raw).
+  { destruct (ts_auto ts); [intros t Ht; destruct (HAr t Ht); lia|subst A; intros t []]. }
+  assert (Hin : forall x, In x (if ts_auto ts then sort (EL ++ A) else EL) <-> In x E \/ In x L \/ In x A).
+  { intros x. destruct (ts_auto ts) eqn:Ea.
+    - rewrite sort_in, in_app_iff, HELin. tauto.
+    - subst A. rewrite HELin. cbn [In]. tauto. }
+  assert (Hrange : forall i, In i (if ts_auto ts then sort (EL ++ A) else EL) -> npre <= i /\ i + nsamp - npre < zlen raw).
+  { intros i Hi. apply Hin in Hi. destruct Hi as [Hi|[Hi|Hi]].
+    - apply HEr in Hi. unfold e in Hi. lia.
+    - apply HLr in Hi. unfold e in Hi. lia.
+    - apply HAr' in Hi. lia. }
+  split; try assumption.
+  - change (ts_auto (d_ts d)) with (ts_auto ts). destruct (ts_auto ts) eqn:Ea; [|assumption].
+    exists (S (Z.to_nat (zlen raw)) + length EL)%nat, EL. repeat split.
+    + exact HAeq.
+    + apply HELsp. exact Hfl.
+    + apply HELin.
+    + apply HELin.
+  - destruct (ts_auto ts).
+    + apply sort_spaced. intros x Hx. apply (sort_in (EL ++ A)) in Hx. apply Hrange in Hx. lia.
+    + apply HELsp. lia.
+Qed.
+
+(* ---------- cutting the records ---------- *)
+
+Lemma cut_spec st npre nsamp idx :
+  0 <= nsamp ->
+  (forall i, In i idx -> npre <= i /\ i + nsamp - npre <= zlen (st_data st)) ->
+  exists recs, cut st npre nsamp idx = Ok recs /\
+               Forall2 (fun i r => trigger_at st i npre nsamp = Ok r) idx recs.
+Proof.
+  intros Hn. induction idx as [|i idx IH]; intros H; cbn [cut]; [eauto|].
+  destruct IH as [recs [-> HF]]; [intros j Hj; apply H; now right|].
+  destruct (H i ltac:(now left)) as [H1 H2].
+  destruct (trigger_at st i npre nsamp) as [r|] eqn:Et.
+  - exists (r :: recs). split; [reflexivity|]. constructor; assumption.
+  - unfold trigger_at in Et.
+    destruct ((i - npre <? 0) || (i + nsamp - npre >? zlen (st_data st)) || (nsamp <? 0)) eqn:E; [lia|discriminate].
+Qed.
+
+Lemma trigger_at_frame st i npre nsamp r : trigger_at st i npre nsamp = Ok r -> r_frame r = st_first st + i.
+Proof.
+  unfold trigger_at. destruct (_ || _ || _); [discriminate|]. intros H; inversion H; reflexivity.
+Qed.
+
+Lemma cut_frames st npre nsamp idx recs :
+  Forall2 (fun i r => trigger_at st i npre nsamp = Ok r) idx recs ->
+  map r_frame recs = map (fun i => st_first st + i) idx.
+Proof.
+  induction 1 as [|i r idx recs H _ IH]; [reflexivity|].
+  cbn [map]. rewrite IH. f_equal. eapply trigger_at_frame; eassumption.
+Qed.
+
+(* ---------- one block: append, trigger, trim ---------- *)
+
+(* before the first block the stream is empty and its frame counter meaningless (AppendSegment overwrites it) *)
+Definition StreamInv0 (G : list Z) (F0 : Z) (st : stream) : Prop :=
+  StreamInv G F0 st \/ (G = [] /\ st_data st = []).
+
+Lemma append_inv0 G F0 st sg :
+  StreamInv0 G F0 st -> seg_first sg = F0 + zlen G -> StreamInv (G ++ seg_data sg) F0 (append st sg).
+Proof.
+  intros [H|[-> He]] Hc; [now apply append_inv|].
+  split; cbn [append st_data st_first app]; rewrite He; cbn [app].
+  - lia.
+  - replace (zlen (seg_data sg) - zlen (seg_data sg)) with 0 by lia. reflexivity.
+  - change (zlen (@nil Z)) with 0 in *. lia.
+Qed.
+
+Lemma StreamInv0_first G F0 st : StreamInv0 G F0 st -> st_data st <> [] -> st_first st <= F0 + zlen G.
+Proof.
+  intros [[H1 H2 H3]|[_ He]] Hne; [|contradiction]. pose proof (zlen_nonneg (st_data st)). lia.
+Qed.
+
+Record Inv1 (F0 p : Z) (d : dsp) (G : list Z) : Prop := {
+  i1_stream : StreamInv0 G F0 (d_stream d);
+  i1_npre : 3 <= d_npre d;
+  i1_nsamp : d_npre d + 1 <= d_nsamp d;
+  i1_max : d_nsamp d <= max_nsamp;
+  i1_emt : d_emt_nsamp d = d_nsamp d;
+  i1_emulti : ts_emulti (d_ts d) = false;
+  i1_period : st_period (d_stream d) = p \/ st_data (d_stream d) = []
+}.
+
+Lemma ntokeep_val d : d_emt_nsamp d = d_nsamp d -> 0 <= d_nsamp d <= max_nsamp -> ntokeep d = 2 * d_nsamp d + 10.
+Proof. intros He Hn. unfold ntokeep. rewrite He. apply s32_small. unfold max_nsamp in Hn. lia. Qed.
+
+(* the state in which TriggerData runs *)
+Definition appended (d : dsp) (sg : segment) : dsp := set_stream d (append (d_stream d) sg).
+(* the state after the cycle, given the positions found *)
+Definition after_block (d1 : dsp) (idx : list Z) : dsp :=
+  let l := match last_opt idx with Some i => st_first (d_stream d1) + i | None => d_last d1 end in
+  set_stream (set_last d1 l) (trim (2 * d_nsamp d1 + 10) (d_stream d1)).
+
+Lemma process_block_spec F0 p d G sg :
+  Inv1 F0 p d G -> seg_first sg = F0 + zlen G -> seg_period sg = p ->
+  let d1 := appended d sg in
+  exists E L A idx recs,
+    process_block d sg = Ok (after_block d1 idx, recs) /\
+    scans d1 E L A idx /\
+    Forall2 (fun i r => trigger_at (d_stream d1) i (d_npre d) (d_nsamp d) = Ok r) idx recs /\
+    StreamInv (G ++ seg_data sg) F0 (d_stream d1) /\
+    st_time (d_stream d1) = seg_time sg - (zlen (st_data (d_stream d))) * p /\
+    st_period (d_stream d1) = p /\
+    Inv1 F0 p (after_block d1 idx) (G ++ seg_data sg).
+Proof.
+  intros [Hst Hp Hs Hmax Hemt Hem Hper] Hc Hpd d1.
+  assert (Hst1 : StreamInv (G ++ seg_data sg) F0 (d_stream d1)) by (apply append_inv0; assumption).
+  destruct (trigger_positions_scans d1 Hp Hs) as [E [L [A [idx [Hpos Hsc]]]]].
+  destruct (cut_spec (d_stream d1) (d_npre d) (d_nsamp d) idx ltac:(lia)) as [recs [Hcut HF]].
+  { intros i Hi. destruct (sc_range _ _ _ _ _ Hsc i Hi) as [H1 H2]. cbn in H1, H2 |- *. lia. }
+  exists E, L, A, idx, recs.
+  assert (Hpb : process_block d sg = Ok (after_block d1 idx, recs)).
+  { unfold process_block. fold (appended d sg). fold d1. unfold trigger_data.
+    change (ts_emulti (d_ts d1)) with (ts_emulti (d_ts d)). rewrite Hem. rewrite Hpos.
+    change (d_npre d1) with (d_npre d). change (d_nsamp d1) with (d_nsamp d). rewrite Hcut.
+    unfold after_block. rewrite ntokeep_val; [reflexivity| |]; cbn; [assumption|lia]. }
+  split; [exact Hpb|]. split; [exact Hsc|]. split; [exact HF|]. split; [exact Hst1|].
+  assert (Htime : st_time (d_stream d1) = seg_time sg - zlen (st_data (d_stream d)) * p).
+  { cbn. destruct Hper as [-> | ->]; [reflexivity|]. cbn. lia. }
+  split; [exact Htime|]. split; [cbn; assumption|].
+  unfold after_block.
+  split; cbn [d_stream d_npre d_nsamp d_emt_nsamp d_ts d_last set_stream set_last appended d1]; try assumption.
+  - left. apply trim_inv; [lia|exact Hst1].
+  - left. unfold trim. destruct (_ >=? _); cbn [st_period append]; assumption.
+Qed.
+
+(* every record of the block is the right excerpt *)
+Lemma block_records_excerpts F0 p d G sg idx recs npre nsamp ts S prev allp :
+  let d1 := appended d sg in
+  StreamInv (G ++ seg_data sg) F0 (d_stream d1) ->
+  st_time (d_stream d1) = seg_time sg - (zlen (st_data (d_stream d))) * p ->
+  seg_period sg = p -> npre = d_npre d -> nsamp = d_nsamp d ->
+  Forall2 (fun i r => trigger_at (d_stream d1) i (d_npre d) (d_nsamp d) = Ok r) idx recs ->
+  block_excerpts (mkbi npre nsamp ts F0 (G ++ seg_data sg) sg S prev allp recs).
+Proof.
+  intros d1 Hst Htime Hp -> -> HF r Hr.
+  assert (Hex : exists i, trigger_at (d_stream d1) i (d_npre d) (d_nsamp d) = Ok r).
+  { clear -HF Hr. induction HF as [|i r0 idx recs H _ IH]; [destruct Hr|].
+    destruct Hr as [<-|Hr]; [eauto|auto]. }
+  destruct Hex as [i Hi].
+  destruct (trigger_at_excerpt _ _ _ _ _ _ _ Hst Hi) as [H1 [H2 [H3 [H4 [H5 H6]]]]].
+  unfold excerpt_ok. cbn [bi_npre bi_nsamp bi_F0 bi_G bi_seg].
+  repeat split; try assumption.
+  - rewrite H6, Htime. change (st_period (d_stream d1)) with (seg_period sg).
+    change (st_first (d_stream d1)) with (seg_first sg - zlen (st_data (d_stream d))). rewrite Hp. ring.
+  - unfold trigger_at in Hi. destruct (_ || _ || _); [discriminate|]. inversion Hi. reflexivity.
+Qed.
+
+(* ---------- induction over histories, generic in the invariant and the per-block judgement ---------- *)
+
+Section History.
+Variable F0 : Z.
+Variable I : dsp -> sstate -> Prop.
+Variable P : binfo -> Prop.
+Variable Q : op -> Prop.
+
+Hypothesis H_block : forall d s sg, I d s -> Q (Block sg) -> seg_first sg = F0 + zlen (s_G s) ->
+  exists d' recs, process_block d sg = Ok (d', recs) /\
+    P (mkbi (s_npre s) (s_nsamp s) (s_ts s) F0 (s_G s ++ seg_data sg) sg (s_S s) (s_epoch s) (s_all s) recs) /\
+    I d' (mkss (s_npre s) (s_nsamp s) (s_ts s) (s_G s ++ seg_data sg) (s_S s)
+               (s_epoch s ++ map r_frame recs) (s_all s ++ map r_frame recs)).
+Hypothesis H_trig : forall d s ts, I d s -> Q (CfgTrig ts) ->
+  I (cfg_trig d ts) (new_epoch F0 s (s_npre s) (s_nsamp s) ts).
+Hypothesis H_len : forall d s nsamp npre, I d s -> Q (CfgLen nsamp npre) ->
+  I (fst (cfg_len d nsamp npre))
+    (if lengths_ok npre nsamp then new_epoch F0 s npre nsamp (s_ts s)
+     else new_epoch F0 s (s_npre s) (s_nsamp s) (s_ts s)).
+
+Lemma history_ind : forall ops d s,
+  I d s -> contiguous (F0 + zlen (s_G s)) ops -> Forall Q ops ->
+  exists bs, annotate F0 s (combine ops (run d ops)) = Some bs /\ (forall b, In b bs -> P b) /\
+             length (run d ops) = length ops /\ ~ In OPanic (run d ops).
+Proof.
+  induction ops as [|o ops IH]; intros d s HI Hc HQ.
+  - exists []. cbn. repeat split; tauto.
+  - inversion HQ as [|? ? HQo HQr]; subst. destruct o as [sg|ts|nsamp npre].
+    + cbn [contiguous] in Hc. destruct Hc as [Hf Hc].
+      destruct (H_block d s sg HI HQo Hf) as [d' [recs [Hpb [HP HI']]]].
+      cbn [run step]. rewrite Hpb. cbn [combine annotate].
+      rewrite Hf, Z.eqb_refl.
+      destruct (IH d' _ HI') as [bs [Ha [Hb [Hlen Hnp]]]]; [cbn [s_G]; rewrite zlen_app; now rewrite Z.add_assoc|assumption|].
+      rewrite Ha. eexists. split; [reflexivity|]. split; [|split].
+      * intros b [<-|Hb']; [exact HP|now apply Hb].
+      * cbn [length]. now rewrite Hlen.
+      * intros [Hx|Hx]; [discriminate|contradiction].
+    + cbn [contiguous] in Hc. cbn [run step combine annotate].
+      destruct (IH (cfg_trig d ts) _ (H_trig d s ts HI HQo)) as [bs [Ha [Hb [Hlen Hnp]]]]; [exact Hc|assumption|].
+      exists bs. split; [exact Ha|]. split; [exact Hb|]. split; [cbn [length]; now rewrite Hlen|].
+      intros [Hx|Hx]; [discriminate|contradiction].
+    + cbn [contiguous] in Hc. cbn [run step].
+      pose proof (H_len d s nsamp npre HI HQo) as HI'.
+      unfold cfg_len in *. destruct (lengths_ok npre nsamp); cbn [fst] in HI'; cbn [combine annotate].
+      * destruct (IH _ _ HI') as [bs [Ha [Hb [Hlen Hnp]]]]; [exact Hc|assumption|].
+        exists bs. split; [exact Ha|]. split; [exact Hb|]. split; [cbn [length]; now rewrite Hlen|].
+        intros [Hx|Hx]; [discriminate|contradiction].
+      * destruct (IH _ _ HI') as [bs [Ha [Hb [Hlen Hnp]]]]; [exact Hc|assumption|].
+        exists bs. split; [exact Ha|]. split; [exact Hb|]. split; [cbn [length]; now rewrite Hlen|].
+        intros [Hx|Hx]; [discriminate|contradiction].
+Qed.
+End History.
+
+(* ---------- C01 for the model ---------- *)
+
+Definition Rel1 (F0 p : Z) (d : dsp) (s : sstate) : Prop :=
+  Inv1 F0 p d (s_G s) /\ d_npre d = s_npre s /\ d_nsamp d = s_nsamp s.
+
+Lemma fresh_inv1 F0 p npre nsamp ts :
+  lengths_ok npre nsamp = true -> nsamp <= max_nsamp ->
+  Inv1 F0 p (fresh_start npre nsamp ts) [].
+Proof.
+  intros Hl Hm. apply lengths_ok_iff in Hl. split; cbn; try lia.
+  - right. split; reflexivity.
+  - apply s32_small. unfold max_nsamp in Hm. lia.
+  - now right.
+Qed.
+
+Lemma cfg_trig_inv1 F0 p d G ts : Inv1 F0 p d G -> ts_emulti ts = false -> Inv1 F0 p (cfg_trig d ts) G.
+Proof.
+  intros [H1 H2 H3 H4 H5 H6 H7] He. split; cbn; try assumption.
+  apply s32_small. unfold max_nsamp in H4. lia.
+Qed.
+
+Lemma cfg_len_inv1 F0 p d G nsamp npre :
+  Inv1 F0 p d G -> nsamp <= max_nsamp -> lengths_ok npre nsamp = true ->
+  Inv1 F0 p (fst (cfg_len d nsamp npre)) G.
+Proof.
+  intros [H1 H2 H3 H4 H5 H6 H7] Hm Hl. unfold cfg_len. rewrite Hl. apply lengths_ok_iff in Hl.
+  split; cbn; try assumption; try lia.
+  apply s32_small. unfold max_nsamp in Hm. lia.
+Qed.
+
+Lemma model_C01 npre nsamp ts F0 p ops :
+  valid_history npre nsamp F0 p ops ->
+  let h := combine ops (run (fresh_start npre nsamp ts) ops) in
+  C01_holds npre nsamp ts F0 h /\
+  length (run (fresh_start npre nsamp ts) ops) = length ops /\
+  ~ In OPanic (run (fresh_start npre nsamp ts) ops).
+Proof.
+  intros [Hl [Hm [Hc HQ]]] h.
+  destruct (history_ind F0 (Rel1 F0 p) block_excerpts (op_ok p)) with (ops := ops)
+    (d := fresh_start npre nsamp ts) (s := init_sstate npre nsamp ts F0) as [bs [Ha [Hb [Hlen Hnp]]]].
+  - (* block *)
+    intros d s sg [HI [Hn1 Hn2]] HQb Hf.
+    destruct (process_block_spec F0 p d (s_G s) sg HI Hf HQb) as [E [L [A [idx [recs [Hpb [Hsc [HF [Hst [Htime [Hper HI']]]]]]]]]]].
+    eexists _, recs. split; [exact Hpb|]. split.
+    + eapply block_records_excerpts; eauto.
+    + split; [exact HI'|]. cbn. split; assumption.
+  - intros d s ts' [HI [Hn1 Hn2]] HQt. split; [|split; assumption].
+    apply cfg_trig_inv1; assumption.
+  - intros d s nsamp' npre' [HI [Hn1 Hn2]] HQl. cbn [op_ok] in HQl.
+    destruct (lengths_ok npre' nsamp') eqn:El.
+    + split; [apply cfg_len_inv1; assumption|]. unfold cfg_len. rewrite El. cbn. split; reflexivity.
+    + unfold cfg_len. rewrite El. cbn [fst]. split; [exact HI|split; assumption].
+  - split; [apply fresh_inv1; assumption|]. split; reflexivity.
+  - cbn. now rewrite Z.add_0_r.
+  - exact HQ.
+  - split; [|split; assumption]. exists bs. split; assumption.
+Qed.
+
+(* the boolean checker decides the judgement *)
+Lemma excerpt_okb_iff b r : excerpt_okb b r = true <-> excerpt_ok b r.
+Proof.
+  unfold excerpt_okb, excerpt_ok. cbv zeta.
+  rewrite !andb_true_iff, zlist_eqb_eq, Bool.eqb_true_iff, !Z.eqb_eq, !Z.leb_le. tauto.
+Qed.
+
+Lemma block_excerptsb_iff b : block_excerptsb b = true <-> block_excerpts b.
+Proof.
+  unfold block_excerptsb, block_excerpts. rewrite forallb_forall.
+  split; intros H r Hr; apply excerpt_okb_iff; auto.
+Qed.
+
+Lemma C01_check_iff npre nsamp ts F0 h : C01_check npre nsamp ts F0 h = true <-> C01_holds npre nsamp ts F0 h.
+Proof.
+  unfold C01_check, C01_holds. destruct (annotate F0 _ h) as [bs|].
+  - rewrite forallb_forall. split.
+    + intros H. exists bs. split; [reflexivity|]. intros b Hb. apply block_excerptsb_iff. auto.
+    + intros [bs' [E H]]. inversion E; subst. intros b Hb. apply block_excerptsb_iff. auto.
+  - split; [discriminate|]. intros [bs [E _]]. discriminate.
+Qed.
+
+(* ---------- the hypotheses are satisfiable by a non-trivial history ---------- *)
+
+(* npre 3, nsamp 6, edge trigger at level 100: a step delivered in the second of three blocks cut so that the
+   record needs samples of the first two blocks, then a refused and an accepted length change *)
+Definition example_ts : tstate := mkts false 0 0 false false 0 true true false 100 false.
+Definition example_ops : list op :=
+  [ Block {| seg_data := [10;10;10;10;10]; seg_first := 7; seg_time := 1000; seg_period := 10; seg_signed := false |};
+    Block {| seg_data := [10;500;500]; seg_first := 12; seg_time := 1050; seg_period := 10; seg_signed := false |};
+    CfgLen 2 2;
+    CfgLen 8 4;
+    Block {| seg_data := [500;500;500;500;500;500]; seg_first := 15; seg_time := 1080; seg_period := 10; seg_signed := false |} ].
+
+Example valid_history_example :
+  valid_history 3 6 7 10 example_ops /\
+  run (fresh_start 3 6 example_ts) example_ops =
+    [ ORecs [] 5 7;
+      ORecs [] 8 7;
+      OCfg true; OCfg false;
+      ORecs [ {| r_frame := 13; r_time := 1060; r_pre := 4; r_data := [10;10;10;10;500;500;500;500]; r_signed := false |} ] 14 7 ].
+Proof.
+  split.
+  - unfold valid_history, example_ops. cbn [contiguous seg_first seg_data]. unfold max_nsamp.
+    split; [reflexivity|]. split; [lia|]. split; [cbn; lia|].
+    repeat constructor; cbn; unfold max_nsamp; lia.
+  - vm_compute. reflexivity.
+Qed.
+
+(* ---------- the statements of Properties.v ---------- *)
+
+Lemma model_records_are_excerpts :
+  forall npre nsamp ts F0 period ops,
+    lengths_ok npre nsamp = true -> nsamp <= max_nsamp ->
+    contiguous F0 ops -> Forall (op_ok period) ops ->
+    exists bs,
+      annotate F0 (init_sstate npre nsamp ts F0) (combine ops (run (fresh_start npre nsamp ts) ops)) = Some bs /\
+      forall b r, In b bs -> In r (bi_recs b) -> excerpt_ok b r.
+Proof.
+  intros npre nsamp ts F0 p ops H1 H2 H3 H4.
+  destruct (model_C01 npre nsamp ts F0 p ops) as [[bs [Ha Hb]] _]; [repeat split; assumption|].
+  exists bs. split; [exact Ha|]. intros b r Hb' Hr. exact (Hb b Hb' r Hr).
+Qed.
+
+Lemma model_never_panics :
+  forall npre nsamp ts F0 period ops,
+    lengths_ok npre nsamp = true -> nsamp <= max_nsamp ->
+    contiguous F0 ops -> Forall (op_ok period) ops ->
+    length (run (fresh_start npre nsamp ts) ops) = length ops /\
+    ~ In OPanic (run (fresh_start npre nsamp ts) ops).
+Proof.
+  intros npre nsamp ts F0 p ops H1 H2 H3 H4.
+  destruct (model_C01 npre nsamp ts F0 p ops) as [_ H]; [repeat split; assumption|exact H].
+Qed.
+
+Lemma model_C01_check :
+  forall npre nsamp ts F0 period ops,
+    lengths_ok npre nsamp = true -> nsamp <= max_nsamp ->
+    contiguous F0 ops -> Forall (op_ok period) ops ->
+    C01_check npre nsamp ts F0 (combine ops (run (fresh_start npre nsamp ts) ops)) = true.
+Proof.
+  intros npre nsamp ts F0 p ops H1 H2 H3 H4. apply C01_check_iff.
+  destruct (model_C01 npre nsamp ts F0 p ops) as [H _]; [repeat split; assumption|exact H].
+Qed.
+
+Lemma C01_checker_sound :
+  forall npre nsamp ts F0 h,
+    C01_check npre nsamp ts F0 h = true ->
+    exists bs, annotate F0 (init_sstate npre nsamp ts F0) h = Some bs /\
+      forall b r, In b bs -> In r (bi_recs b) -> excerpt_ok b r.
+Proof.
+  intros npre nsamp ts F0 h H. apply C01_check_iff in H. destruct H as [bs [Ha Hb]].
+  exists bs. split; [exact Ha|]. intros b r Hb' Hr. exact (Hb b Hb' r Hr).
+Qed.
+
+Lemma annotate_ground_truth :
+  forall F0 s h bs, annotate F0 s h = Some bs ->
+    forall pre b post, bs = pre ++ b :: post ->
+      bi_F0 b = F0 /\
+      bi_G b = s_G s ++ concat (map (fun x => seg_data (bi_seg x)) (pre ++ [b])) /\
+      seg_first (bi_seg b) = F0 + zlen (bi_G b) - zlen (seg_data (bi_seg b)).
+Proof.
+  intros F0 s h. revert s. induction h as [|[o ob] h IH]; intros s bs Ha pre b post Hbs.
+  - inversion Ha; subst. destruct pre; discriminate.
+  - destruct o as [sg|ts|nsamp npre]; destruct ob as [recs n f|err|]; cbn [annotate] in Ha; try discriminate.
+    + destruct (seg_first sg =? F0 + zlen (s_G s)) eqn:Ef; [|discriminate].
+      destruct (annotate F0 _ h) as [bs'|] eqn:Ea; [|discriminate]. injection Ha as Ha. rewrite <- Ha in Hbs. clear Ha.
+      apply Z.eqb_eq in Ef.
+      destruct pre as [|b0 pre]; cbn [app] in Hbs; injection Hbs as Hb1 Hb2.
+      * subst b. cbn [bi_F0 bi_G bi_seg map concat app]. rewrite app_nil_r. repeat split.
+        rewrite zlen_app. lia.
+      * subst b0 bs'. destruct (IH _ _ Ea pre b post eq_refl) as [H1 [H2 H3]]. split; [exact H1|]. split; [|exact H3].
+        rewrite H2. cbn [s_G map concat bi_seg app]. now rewrite app_assoc.
+    + destruct err; [discriminate|]. apply (IH _ _ Ha pre b post Hbs).
+    + destruct err; apply (IH _ _ Ha pre b post Hbs).
+Qed.
